@@ -13,15 +13,16 @@ import (
 
 // finding ids (see /verif/findings.d/c20.json)
 const (
-	fTextUnescaped  = "C20-text-unescaped"      // literal < and & of text copied raw into the v-html sink
-	fEscapes        = "C20-escapes-unresolved"  // backslash escapes / character references not resolved
-	fHTMLClosure    = "C20-html-block-closure"  // closing line of an HTML block of type 1-5 dropped
-	fHardBreak      = "C20-hard-break-doubled"  // <br></br> parses as two breaks (pinned by the repo's fixtures)
-	fStartZero      = "C20-ol-start-zero"       // "0." list loses start="0"
-	fInlineNewline  = "C20-inline-newline"      // newline inserted after every inline element
-	fPrePadding     = "C20-pre-padding"         // "\n  " and "\n" inserted inside <pre> around <code>
-	fLinkTextTrim   = "C20-inline-content-trim" // leading/trailing space of link text trimmed
-	fEmptyDest      = "C20-empty-destination"   // [a]() renders <a> without href
+	fTextUnescaped  = "C20-text-unescaped"       // literal < and & of text copied raw into the v-html sink
+	fEscapes        = "C20-escapes-unresolved"   // backslash escapes / character references not resolved
+	fHTMLClosure    = "C20-html-block-closure"   // closing line of an HTML block of type 1-5 dropped
+	fHardBreak      = "C20-hard-break-doubled"   // <br></br> parses as two breaks (pinned by the repo's fixtures)
+	fStartZero      = "C20-ol-start-zero"        // "0." list loses start="0"
+	fInlineNewline  = "C20-inline-newline"       // newline inserted after every inline element
+	fPrePadding     = "C20-pre-padding"          // "\n  " and "\n" inserted inside <pre> around <code>
+	fLinkTextTrim   = "C20-inline-content-trim"  // leading/trailing space of link text trimmed
+	fEmptyDest      = "C20-empty-destination"    // [a]() renders <a> without href
+	fTightSeparator = "C20-tight-item-separator" // no line break between a tight item's text and a following HTML block
 	maxDocLines     = 40
 	maxInlineDepth  = 3
 	maxBlockDepth   = 3
@@ -85,8 +86,8 @@ var (
 	// a backslash that is not an escape stays a backslash on both sides
 	nonEscapes = []string{"\\a", "\\1", "\\é", "a\\b"}
 	mustaches  = []string{"{{ content }}", "{{ x }}", "{{x}}", "{{ 1 + 1 }}", "{{ level }}", "{{ href }}", "{{ code }}", "{{", "}}", "{{ content | upper }}", "{ { x } }", "{{ title }}", "{{ label }}", "{{{ x }}}", "{{ items[0].a }}", "{{ '<q>' }}"}
-	codeAtoms  = []string{"x", "a  b", "<b>", "&amp;", "&", "{{ x }}", "{{ content }}", "*a*", "\\*", "\\", "[l](u)", "a|b", "<!-- c -->", "'q'", "\"", "fn(a, b)", "é", "$1", "#", "-", "1.", ">", "</code>", "</pre>", "{{ code }}", "~~~", "}}"}
-	dests      = []string{"/p", "http://x.y/a?b=1&c=2", "<a b>", "/u(v)", "#frag", "/ä", "/a%20b", "/q?x={{x}}", "", "<>", "/a_b*c", "mailto:a@b.c", "//h/p", "/a\"b", "/a'b", "/%zz", "/a+b", "/#{{ href }}", "javascript:alert(1)", "/a~b|c"}
+	codeAtoms  = []string{"x", "a  b", "<q>", "&amp;", "&", "{{ x }}", "{{ content }}", "*a*", "\\*", "\\", "[l](u)", "a|b", "<!-- c -->", "'q'", "\"", "fn(a, b)", "é", "$1", "#", "-", "1.", ">", "</code>", "</pre>", "{{ code }}", "~~~", "}}"}
+	dests      = []string{"/p", "http://x.y/a?b=1&c=2", "<a b>", "/u(v)", "#frag", "/ä", "/a%20b", "/q?x={{x}}", "", "<>", "/a_b*c", "mailto:a@b.c", "//h/p", "/a\"b", "/a'b", "/%zz", "/a+b", "/#{{href}}", "javascript:alert(1)", "/a~b|c"}
 	destsEsc   = []string{"/a&amp;b", "/a\\*b", "/a\\)b", "/&copy;", "/a\\\\b", "<a\\>b>"}
 	titlesSafe = []string{"t", "two words", "ti&tle", "a<b", "{{ title }}", "é", "it's", "a > b", "say (x)", "{{ x }}", "x  y", "<b>bold</b>", "&", "a & b < c"}
 	titlesEsc  = []string{"a &amp; b", "q\\\"q", "&copy; me", "a\\*b", "&#35;1", "\\\\", "&lt;b&gt;"}
@@ -306,7 +307,9 @@ func (g *gen) rawInline(depth int, oneLine bool) string {
 	case 3:
 		return g.rawTag("br") + "/>"
 	case 4:
-		return "<!-- c " + g.word() + " -->"
+		// preceded by a word: a line that starts with <!-- is an HTML block, and the rest of that
+		// line would be raw HTML
+		return g.word() + " <!-- c " + g.word() + " -->"
 	case 5:
 		return g.rawTag("img") + ` src="a.png" alt="">`
 	case 6:
@@ -619,7 +622,7 @@ func (g *gen) list(depth int, ordered bool) []string {
 		case 6:
 			start, startTxt = 7, "007"
 		case 7:
-			start = 999999999
+			start = 999999999 - items + 1 // nine digits is the longest list marker
 		}
 	}
 	var out []string
@@ -750,8 +753,8 @@ func (g *gen) htmlBlock() []string {
 		{[]string{g.rawTag("a") + ` href="/x?a=1&amp;b=2">`, "*" + w + "*", `</a>`}, false},                        // 7
 		{[]string{`<my-element attr='v'>`, w, `</my-element>`}, false},                                             // 7
 		{[]string{g.rawTag("pre") + `>` + w + ` {{ y }}</pre>`}, false},                                            // 1, single line
-		{[]string{`<script>let a = 1 < 2 && b;</script>`}, false},                                                  // 1
-		{[]string{`<style>p > a { color: red }</style>`}, false},                                                   // 1
+		{[]string{`<script>let a = 1;</script>`}, false},                                                           // 1
+		{[]string{`<style>p { color: red }</style>`}, false},                                                       // 1
 		{[]string{`<!-- ` + w + ` -->`}, false},                                                                    // 2
 		{[]string{`<?php echo 1; ?>`}, false},                                                                      // 3
 		{[]string{`<!DOCTYPE html>`}, false},                                                                       // 4
@@ -774,7 +777,7 @@ func (g *gen) htmlBlock() []string {
 }
 
 func (g *gen) block(depth int) []string {
-	w := []int{25, 10, 5, 8, 4, 7, 8, 7, 7, 3, 8}
+	w := []int{25, 10, 5, 8, 4, 10, 8, 7, 7, 3, 8}
 	if depth >= maxBlockDepth {
 		w = []int{50, 10, 5, 10, 5, 0, 0, 0, 10, 5, 5}
 	}
